@@ -1,4 +1,5 @@
 import PB.Model.Query
+import PB.Model.QueryBytes
 import PB.Spec.Query
 import PB.Drv.Loop
 /-
@@ -6,6 +7,7 @@ Driver for C11. Ops (mirrors harness/cmd/hx-c11/spec.go):
   lex <hex>                       parse <hex> <oracle>
   rt <hexprefix> <cond|-> <hexorderby> <limit> <offset> <oracle> <rm> <recs>
   gs <gap> <word> <scond|-> <word|-> <hex|!> <hex|!> <0|1> <oracle>
+  lexb <hex> / escb <hex> / units <hex>     byte-level tokenizer / escapeString / `range` (any bytes, no UTF-8 decoding here)
 Strings are hex of UTF-8, "-" = empty, "!" = absent. Every malformed line and every table entry the
 model would need but was not given is answered loudly (`bad-op`, `oracle-missing`), never defaulted.
 -/
@@ -33,6 +35,15 @@ def unhx (s : L) : Option Tok :=
     | some str => some str.toList
 
 def hx (t : Tok) : String := toHex (String.ofList t).toUTF8.toList
+
+/-- hex → bytes as they are (no UTF-8 decoding: the byte-level model decodes itself). -/
+def unhxB (s : L) : Option B.BStr :=
+  if s = ['-'] then some [] else
+  match parseHexChars s with
+  | none => none
+  | some bs => if bs.isEmpty then none else some (bs.map (·.toNat))
+
+def hxB (t : B.BStr) : String := toHex (t.map UInt8.ofNat)
 
 def natOf (s : L) : Option Nat := parseNat s
 
@@ -345,6 +356,23 @@ def handle (line : String) : String :=
     | some text => match lex text with
       | .error e => "err " ++ e.str
       | .ok toks => if toks.isEmpty then "ok 0" else s!"ok {toks.length} {",".intercalate (toks.map hx)}"
+  | [['l','e','x','b'], h] =>
+    match unhxB h with
+    | none => "bad-op"
+    | some text => match B.lexBytes text with
+      | .error e => "err " ++ e.str
+      | .ok toks => if toks.isEmpty then "ok 0" else s!"ok {toks.length} {",".intercalate (toks.map hxB)}"
+  | [['e','s','c','b'], h] =>
+    -- Print of New("a:" + t): "query " ++ escapeString("a" + ":" + t)
+    match unhxB h with
+    | none => "bad-op"
+    | some t => hxB ([0x71, 0x75, 0x65, 0x72, 0x79, 0x20] ++ B.escB (0x61 :: 0x3a :: t))
+  | [['u','n','i','t','s'], h] =>
+    match unhxB h with
+    | none => "bad-op"
+    | some t =>
+      let us := B.units t
+      if us.isEmpty then "ok 0" else s!"ok {us.length} {",".intercalate (us.map fun u => s!"{u.src.length}:{u.r}")}"
   | [['p','a','r','s','e'], h, o] =>
     match unhx h, parseOracle o with
     | some text, some es => parseOut (mkOracle es []) es text
